@@ -110,7 +110,7 @@ def run(ctx):
     ctx.model_check("C08", cfg_text=inv + _cfg(3), label="S:C08 SuffixTrie walk = PSL, every rule set of <= 3 rules")
     ctx.model_check("C08", cfg_text=inv + _cfg(2, buggy=True), label="S:C08 self-test: pinned (defective) trie must violate", expect_violation=True)
     if not ctx.quick:
-        ctx.model_check("C08", cfg_text=inv + _cfg(4, extra="SYMMETRY Sym\n"), label="S:C08 every rule set of <= 4 rules (label symmetry)", timeout=7200)
+        ctx.model_check("C08", cfg_text=inv + _cfg(4), label="S:C08 every rule set of <= 4 rules", timeout=7200)
     failing = []
     # ---- (b) synthetic rule sets on the real SuffixTrie
     rules_file = ctx.path("psl_rules.json")
